@@ -68,7 +68,8 @@ def _fail(res, check, env, g, vec, what, **kw):
          "schema": env.render(range(ninner + 1, len(env.defs) + 1))}
     if vec is not None:
         d["walk"] = vec["walk"]
-        d["outL"] = _hex(vec["outL"])
+        if "outL" in vec:
+            d["outL"] = _hex(vec["outL"])
     d.update(kw)
     res["fails"].append(d)
 
@@ -236,3 +237,114 @@ def check_layout(env, mod, nodes, g, res):
         if want["kind"] == 0 and cls._SIZE != want["size"]:
             _fail(res, "layout", env, g, None, "python _SIZE of fixed %s is %r, rules give %d"
                   % (name, cls._SIZE, want["size"]), type=name)
+
+
+# ---------------------------------------------------------------------------
+# C06: faulted inputs
+# ---------------------------------------------------------------------------
+class _Timeout(Exception):
+    pass
+
+
+def _alarm(signum, frame):
+    raise _Timeout()
+
+
+def fault_worker(inner_defs, groups, extra):
+    import signal
+    import tracemalloc
+    import prophy
+    res = {"fails": [], "n_vec": 0, "n_groups": 0, "nontrivial": [], "samples": [], "n_checked": {},
+           "outcomes": {}}
+    work = tempfile.mkdtemp(prefix="vfpy-", dir=extra.get("scratch"))
+    signal.signal(signal.SIGALRM, _alarm)
+    tracemalloc.start()
+    try:
+        try:
+            mod, nodes, envs, text = compile_batch(inner_defs, groups, work, "b")
+        except P.CompileFailure as e:
+            raise RuntimeError("legal schemas failed to compile (C12's business): %s" % e)
+        for g in groups:
+            env = envs[g["gid"]]
+            root = len(env.defs)
+            t = S.Ref(root)
+            res["n_groups"] += 1
+            for vec in g["vectors"]:
+                res["n_vec"] += 1
+                data = bytes(vec["inp"])
+                order = "<" if vec["ord"] == "L" else ">"
+                fresh = P.new_message(env, mod, root)
+                tracemalloc.reset_peak()
+                base = tracemalloc.get_traced_memory()[0]
+                signal.alarm(5)
+                outcome = None
+                try:
+                    try:
+                        fresh.decode(data, order)
+                        outcome = "return"
+                    except prophy.ProphyError:
+                        outcome = "ProphyError"
+                    except _Timeout:
+                        outcome = "timeout"
+                    except BaseException as e:  # noqa
+                        outcome = "other"
+                        _fail(res, "total", env, g, vec, "decode(%s, %r) raised %s (not ProphyError)"
+                              % (data.hex(), order, P.exc_text(e)), order=order, inp=data.hex(), fault=vec["fault"])
+                finally:
+                    signal.alarm(0)
+                peak = tracemalloc.get_traced_memory()[1] - base
+                if outcome == "timeout":
+                    _fail(res, "total", env, g, vec, "decode(%s, %r) did not terminate within 5 s"
+                          % (data.hex(), order), order=order, inp=data.hex(), fault=vec["fault"])
+                if peak > 64 * len(data) + (1 << 20):
+                    _fail(res, "total", env, g, vec, "decode(%s, %r) allocated %d bytes for %d input bytes"
+                          % (data.hex()[:80], order, peak, len(data)), order=order, inp=data.hex(), fault=vec["fault"])
+                key = "%s/%s/spec-%s" % (vec["fault"][0], outcome, vec["verdict"])
+                res["outcomes"][key] = res["outcomes"].get(key, 0) + 1
+                if vec["fault"][0] != "none":
+                    res["nontrivial"].append("%d:%s" % (g["gid"], data.hex()))
+                if outcome == "return":
+                    _check_fixpoint(env, mod, root, t, fresh, g, vec, order, data, res)
+                if len(res["samples"]) < 2 and vec["fault"][0] == "ctl":
+                    ninner = len(env.defs) - len(g["cons"])
+                    res["samples"].append({"schema": env.render(range(ninner + 1, len(env.defs) + 1)),
+                                           "fault": vec["fault"], "order": order, "input": data.hex(),
+                                           "python": outcome, "spec_decoder": vec["verdict"] + " " + vec["reason"]})
+    finally:
+        tracemalloc.stop()
+        shutil.rmtree(work, ignore_errors=True)
+    return res
+
+
+def _check_fixpoint(env, mod, root, t, fresh, g, vec, order, data, res):
+    kw = dict(order=order, inp=data.hex(), fault=vec["fault"])
+    try:
+        enc = fresh.encode(order)
+    except Exception as e:
+        _fail(res, "total", env, g, vec, "decode(%s, %r) returned but the message does not encode: %s"
+              % (data.hex(), order, P.exc_text(e)), **kw)
+        return
+    try:
+        v1 = P.extract(env, fresh, t)
+    except Exception as e:
+        _fail(res, "total", env, g, vec, "decode(%s, %r) returned but the message cannot be read: %s"
+              % (data.hex(), order, P.exc_text(e)), **kw)
+        return
+    again = P.new_message(env, mod, root)
+    try:
+        again.decode(enc, order)
+        v2 = P.extract(env, again, t)
+        enc2 = again.encode(order)
+    except Exception as e:
+        _fail(res, "total", env, g, vec, "decode(%s, %r) returned; decoding its re-encoding %s failed: %s"
+              % (data.hex(), order, enc.hex(), P.exc_text(e)), **kw)
+        return
+    if enc == enc2 and v1 != v2 and vec["rkind"] == 2:
+        # the documented greedy-tail ambiguity (C02): the re-encoding ends in
+        # padding that the second decode reads as further greedy elements; the
+        # bytes are a fixpoint, the value cannot be.  Unlimited roots only.
+        res["outcomes"]["greedy-tail-ambiguity"] = res["outcomes"].get("greedy-tail-ambiguity", 0) + 1
+        return
+    if v1 != v2 or enc != enc2:
+        _fail(res, "total", env, g, vec, "decode(%s, %r) returned; not a fixpoint: %s -> %s, %r -> %r"
+              % (data.hex(), order, enc.hex(), enc2.hex(), v1, v2), **kw)
